@@ -272,12 +272,17 @@ def envLookup (env : List Bytes) (name : Bytes) : Option Bytes :=
   | some e => some (e.drop (name.length + 1))
   | none => none
 
-/-- the `popen` stub of harness/conf.c: `N…` cannot be started, `E…` prints nothing, everything
-    else prints `" [" cmd "] \n"` -/
+/-- the `popen` stub of harness/conf.c: `N…` cannot be started, `E…` prints nothing, `R<n>` prints
+    n bytes, everything else prints `" [" cmd "] \n"` -/
 def stubCmd (cmd : Bytes) : Option Bytes :=
   match cmd with
   | 78 :: _ => none
   | 69 :: _ => some []
+  | 82 :: ds =>
+    -- `R<n>` (1..8 decimal digits): exactly n bytes, byte i = 'a' + i % 23
+    if ds ≠ [] && ds.length ≤ 8 && ds.all (fun c => 48 ≤ c && c ≤ 57) then
+      some ((List.range (ds.foldl (fun a c => a * 10 + (c.toNat - 48)) 0)).map fun i => (97 + i % 23).toUInt8)
+    else some ([32, 91] ++ cmd ++ [93, 32, 10])
   | _ => some ([32, 91] ++ cmd ++ [93, 32, 10])
 
 def harnessWorld (env : List Bytes) : World := { getenv := envLookup env, syscmd := stubCmd }
